@@ -21,6 +21,8 @@ pub struct Tab {
     pub next_id: i64,
     pub ids: Vec<i64>,
     pub updatable: bool, // no unique index => UPDATE allowed (finding IndexMaintenanceOnUpdate)
+    /// value columns that may hold a NULL (an INSERT ran while the column was nullable): SET NOT NULL is only issued on the others
+    pub maybe_null: Vec<usize>,
 }
 
 pub fn pick<'a, T>(r: &mut R, v: &'a [T]) -> &'a T {
@@ -50,7 +52,7 @@ pub fn rand_table(r: &mut R, name: &str, unique_id: bool) -> Tab {
         cols.push(ColDef { name: format!("c{}", i + 1), ty, nn: r.random_range(0..6) == 0 });
     }
     let uniq = if unique_id { vec![vec![1usize]] } else { vec![] };
-    Tab { def: TableDef { name: name.into(), cols, uniq }, next_id: 1, ids: vec![], updatable: !unique_id }
+    Tab { def: TableDef { name: name.into(), cols, uniq }, next_id: 1, ids: vec![], updatable: !unique_id, maybe_null: vec![] }
 }
 
 fn col(t: &Tab, alias: &str, i: usize, base: usize) -> E {
@@ -456,7 +458,7 @@ fn expr_pool() -> (Tab, Vec<E>, Vec<E>) {
         ColDef { name: "id".into(), ty: Ty::Int, nn: false }, ColDef { name: "a".into(), ty: Ty::Int, nn: false },
         ColDef { name: "b".into(), ty: Ty::Int, nn: false }, ColDef { name: "s".into(), ty: Ty::Text, nn: false },
         ColDef { name: "f".into(), ty: Ty::Bool, nn: false }], uniq: vec![] };
-    let t = Tab { def, next_id: 1, ids: vec![], updatable: true };
+    let t = Tab { def, next_id: 1, ids: vec![], updatable: true, maybe_null: vec![] };
     let a = || col(&t, "g", 1, 0);
     let b = || col(&t, "g", 2, 0);
     let sc = || col(&t, "g", 3, 0);
@@ -1082,6 +1084,46 @@ fn seg_cfg(run: &mut Runner, wseed: u64, cfg: axmosdb::DBConfig, checkpoints: bo
     stats["configs"] = json!(stats["configs"].as_u64().unwrap_or(0) + 1);
 }
 
+/// C15 C08 C09: schema changes (SET / DROP NOT NULL) in autocommit, DML before and after them, and the process dying at
+/// quiescent points (the files as they are on disk are copied and opened: recovery redoes the logged statements, schema
+/// changes included) or closing cleanly; the history then simply continues on the recovered database.
+fn seg_alter(run: &mut Runner, r: &mut R, stats: &mut serde_json::Value) {
+    run.reset(default_cfg());
+    let u2 = r.random_bool(0.4);
+    let mut tabs: Vec<Tab> = vec![rand_table(r, "t1", false), rand_table(r, "t2", u2)];
+    // about half of the value columns start out NOT NULL
+    for t in tabs.iter_mut() { for ci in 1..t.def.cols.len() { if r.random_bool(0.5) { t.def.cols[ci].nn = true; } } }
+    for t in tabs.iter_mut() { run.auto(&Stmt::Create(t.def.clone())); populate(run, r, t, 5); for ci in 1..t.def.cols.len() { if !t.def.cols[ci].nn { t.maybe_null.push(ci); } } }
+    let n = r.random_range(20..45);
+    for step in 0..n {
+        if run.hung { return; }
+        let ti = r.random_range(0..2);
+        let c = r.random_range(0..100);
+        if c < 22 {
+            // toggle NOT NULL of a value column: DROP always; SET only when the column was declared NOT NULL (so it holds no NULL)
+            let cands: Vec<usize> = (1..tabs[ti].def.cols.len()).filter(|ci| tabs[ti].def.cols[*ci].nn || !tabs[ti].maybe_null.contains(ci)).collect();
+            if cands.is_empty() { continue; }
+            let ci = *pick(r, &cands);
+            let was = tabs[ti].def.cols[ci].nn;
+            let to = if was { false } else { !tabs[ti].maybe_null.contains(&ci) };
+            if !was && !to { continue; }
+            let st = Stmt::AlterNn { tbl: tabs[ti].def.name.clone(), col: (ci + 1, tabs[ti].def.cols[ci].name.clone()), nn: to };
+            if run.auto(&st).is_ok() { tabs[ti].def.cols[ci].nn = to; }
+            stats["alters"] = json!(stats["alters"].as_u64().unwrap_or(0) + 1);
+        } else if c < 60 {
+            let s = rand_insert(r, &mut tabs[ti], 0, 1, false);
+            if run.auto(&s).is_ok() { note_insert(&mut tabs[ti], &s); let t = &mut tabs[ti]; for ci in 1..t.def.cols.len() { if !t.def.cols[ci].nn && !t.maybe_null.contains(&ci) { t.maybe_null.push(ci); } } }
+        } else if c < 68 { let s = rand_delete(r, &tabs[ti], 0, 1); run.auto(&s); }
+        else if c < 76 { run.flush(); }
+        else if c < 88 || step + 1 == n {
+            if r.random_bool(0.7) { run.crash_reopen(default_cfg()); stats["crash_reopens"] = json!(stats["crash_reopens"].as_u64().unwrap_or(0) + 1); } else { run.reopen(default_cfg()); }
+            stats["reopens"] = json!(stats["reopens"].as_u64().unwrap_or(0) + 1);
+            for t in &tabs { run.auto(&Stmt::Select(select_all(t))); }
+        } else { run.auto(&Stmt::Select(select_all(&tabs[ti]))); }
+    }
+    for t in &tabs { run.auto(&Stmt::Select(select_all(t))); }
+}
+
 /// C15: DDL interleaved with DML, inside committed and rolled-back transactions, names reused, reopen at the end
 fn seg_ddl(run: &mut Runner, r: &mut R, stats: &mut serde_json::Value) {
     run.reset(default_cfg());
@@ -1271,6 +1313,7 @@ pub fn main(a: &Args) -> i32 {
                 seg_cfg(&mut run, wseed, c, (seed / 8) % 2 == 0, &mut stats);
             }
             "ddl" => seg_ddl(&mut run, &mut r, &mut stats),
+            "alter" => seg_alter(&mut run, &mut r, &mut stats),
             "fuzz" => seg_fuzz(&mut run, &mut r, &mut stats),
             other => { eprintln!("unknown kind {other}"); return 2; }
         }
